@@ -277,19 +277,59 @@ impl Run {
         self.step(Op::NativeBurn { addr: coll.clone(), amount: 500 });
         self.step(sc.stake(&u[2], big, None, None, None));
         self.relay_all("ack");
-        // more than one page of failed transfers for one receiver
+        // more than one page of failed transfers for one receiver (every other deployment: the minted
+        // LST goes to a native-chain recipient, so two receivers and two denoms are in play)
+        let na = sc.native_users[0].clone();
+        let to_native = sc.cfg.salt % 4 >= 2;
         for i in 0..12u128 {
-            self.step(sc.stake(&u[2], sc.cfg.min_stake.min(1_000_000_000_000_000_000_000_000).max(1000) + i, None, None, None));
+            let amt = sc.cfg.min_stake.min(1_000_000_000_000_000_000_000_000).max(1000) + i;
+            if to_native {
+                self.step(sc.stake(&u[2], amt, Some(&na), Some(true), None));
+            } else {
+                self.step(sc.stake(&u[2], amt, None, None, None));
+            }
         }
         self.relay_all(if sc.cfg.salt % 3 == 0 { "timeout_or_err" } else { "err" });
-        if sc.cfg.salt % 2 == 0 {
-            self.step(sc.recover(&u[0], None, None, None));
-        } else {
-            self.step(sc.recover(&u[0], Some(true), None, None));
-            self.step(sc.recover(&u[1], Some(true), None, None));
+        let staker = self.obs.staker();
+        let receivers: Vec<String> = if to_native { vec![staker.clone(), na.clone()] } else { vec![staker.clone()] };
+        for recv in &receivers {
+            let r_arg = if *recv == staker { None } else { Some(recv.as_str()) };
+            match sc.cfg.salt % 5 {
+                0 | 1 => {
+                    self.step(sc.recover(&u[0], None, None, r_arg));
+                }
+                2 | 3 => {
+                    self.step(sc.recover(&u[0], Some(true), None, r_arg));
+                    self.step(sc.recover(&u[1], Some(true), None, r_arg));
+                }
+                _ => {
+                    // admin-forced, every refundable packet of that receiver (one denom at a time), asked for page-wise
+                    let mine: Vec<(u64, String)> = self.obs.queue.iter().filter(|p| p.receiver == *recv && p.status != "sent").map(|p| (p.seq, p.denom.clone())).collect();
+                    let mut denoms: Vec<String> = mine.iter().map(|x| x.1.clone()).collect();
+                    denoms.sort();
+                    denoms.dedup();
+                    for d in denoms {
+                        let sel: Vec<u64> = mine.iter().filter(|x| x.1 == d).map(|x| x.0).collect();
+                        self.step(sc.recover(&sc.admin, Some(true), Some(sel), r_arg));
+                    }
+                }
+            }
         }
         self.step(sc.recover(&u[0], None, None, None)); // nothing left: must be refused
         self.relay_all("ack");
+        // reward counter at the edge of its range (an accounting correction by the admin): a payment
+        // is then either refused or counted in full. Not in C16 runs: totals above 10^27 are outside
+        // that property's bounds and the refusal is an arithmetic abort.
+        if self.model.on("C11") && !self.model.on("C16") && self.obs.l > 0 && self.obs.state_ok {
+            let (n, l) = (self.obs.n, self.obs.l);
+            self.step(sc.resume(n, l, u128::MAX - 50 - (sc.cfg.salt as u128 % 7)));
+            self.step(Op::NativeMint { addr: coll.clone(), amount: 1000 });
+            self.step(sc.reward(&coll, &ch, 40));
+            self.step(sc.reward(&coll, &ch, 960));
+            self.step(sc.resume(n + 36, l, 77));
+            self.relay_all("ack");
+            self.model.count("reward_counter_edge");
+        }
         self.model.count("exit_scenario");
     }
 
